@@ -68,6 +68,25 @@ func run(c *hc.Ctx) {
 		if c.Chance(0.4) {
 			P = P.Append(c.GenPolygon(class, &pool, closeAll))
 		}
+		if c.Chance(0.3) {
+			// combs: one subpath zig-zagging over a few levels on a small grid, so that a ray level with a
+			// row meets MANY hits (more than a dozen) with several at the same x (pinches, vertices on
+			// other edges): the order of equal-x hits in the sorted intersection list matters here
+			P = &canvas.Path{}
+			class, closeAll = 4, true
+			n := 13 + c.Intn(18)
+			for i := 0; i < n; i++ {
+				v := hc.P2{X: float64(c.Intn(9)), Y: float64(c.Intn(3) - 1)}
+				if i == 0 {
+					v.Y = float64(2*c.Intn(2) - 1) // start vertex off the middle row (see coincidence())
+					P.MoveTo(v.X, v.Y)
+				} else {
+					P.LineTo(v.X, v.Y)
+				}
+			}
+			P.Close()
+			c.Count("comb")
+		}
 		cs, ok := hc.Contours(P)
 		if !ok || len(cs) == 0 {
 			continue
@@ -312,12 +331,35 @@ func run(c *hc.Ctx) {
 			c.Fail("ccw-sign", fmt.Sprintf("CCW()=%v but the signed area is %g", ccw, area), map[string]any{"P": p.String()})
 		}
 		c.Count("ccw")
-		// Filling: an inner copy (same or opposite direction) inside the outer one
+		// Filling: an inner copy (same or opposite direction) inside the outer one; or the shape itself
+		// as the inner contour of a rectangle that hugs its exact bounds (an outer contour much
+		// tighter than the control-point / full-ellipse box of the curved inner one)
+		outer := p
 		inner := p.Copy().Transform(canvas.Identity.ScaleAbout(0.3, 0.3, fl[0][0].X*0+centroid(fl[0]).X, centroid(fl[0]).Y))
 		if c.Bool() {
 			inner = inner.Reverse()
 		}
-		both := p.Copy().Append(inner)
+		if c.Chance(0.4) {
+			x0, y0, x1, y1 := math.Inf(1), math.Inf(1), math.Inf(-1), math.Inf(-1)
+			for _, v := range fl[0] {
+				x0, y0, x1, y1 = math.Min(x0, v.X), math.Min(y0, v.Y), math.Max(x1, v.X), math.Max(y1, v.Y)
+			}
+			mg := c.Range(0.02, 0.15) * math.Max(x1-x0, y1-y0)
+			outer = &canvas.Path{}
+			outer.MoveTo(x0-mg, y0-mg)
+			outer.LineTo(x1+mg, y0-mg)
+			outer.LineTo(x1+mg, y1+mg)
+			outer.LineTo(x0-mg, y1+mg)
+			outer.Close()
+			if c.Bool() {
+				outer = outer.Reverse()
+			}
+			inner = p
+			c.Count("filling:hugging-rectangle")
+		}
+		fo, _ := hc.Contours(outer.Flatten(0.001))
+		area = hc.Area(fo[0])
+		both := outer.Copy().Append(inner)
 		for rule := 0; rule < 4; rule++ {
 			var f []bool
 			if msg := hc.Try(func() { f = both.Filling(canvas.FillRule(rule)) }); msg != "" {
@@ -366,8 +408,16 @@ func flatClass(p hc.P2, cs [][]hc.P2, open bool) string {
 // coincidentHits: a vertex lying exactly on the ray is also touched by another edge or vertex of the
 // path at the same place (then the two end-point hits of that vertex are not adjacent in the sorted
 // intersection list, which windings() assumes).
-func coincidentHits(p hc.P2, cs [][]hc.P2) bool {
+func coincidentHits(p hc.P2, cs [][]hc.P2) bool { return coincidence(p, cs) == 2 }
+
+// coincidence: 0 = no vertex on the ray is touched by anything else; 2 = such a coincidence happens
+// at the x of a subpath's START vertex lying on the ray (its two end-point hits are the first and
+// the last hit of the subpath in path order, so every other hit with the same x sorts between them:
+// the recorded defect); 1 = coincidences only elsewhere (there the stable sort keeps each vertex's
+// two end-point hits adjacent and the library is right: a failure in this class is NOT known).
+func coincidence(p hc.P2, cs [][]hc.P2) int {
 	type edge struct{ a, b hc.P2 }
+	res := 0
 	var es []edge
 	for _, c := range cs {
 		for i := range c {
@@ -387,11 +437,16 @@ func coincidentHits(p hc.P2, cs [][]hc.P2) bool {
 				}
 			}
 			if n > 2 { // more than its own two incident edges
-				return true
+				for _, c2 := range cs {
+					if len(c2) > 0 && c2[0].Y == p.Y && c2[0].X == v.X {
+						return 2
+					}
+				}
+				res = 1
 			}
 		}
 	}
-	return false
+	return res
 }
 
 // illConditioned: the ray passes within the tolerance band of a vertex without being exactly level
